@@ -1,6 +1,7 @@
 """C02 driver: records what the real strategy.demultiplex() of every registered demultiplexing strategy returns
 for generated read pairs.
-usage: drive_layout.py <out.ndjson> <tier> <seed> <scenarios.json> [only=<shortName>]
+usage: drive_layout.py <out.ndjson> <tier> <seed> <scenarios.json> [only=<shortName>,..] [n=<pairs per branch>]
+       drive_layout.py <out.ndjson> replay 0 <event.json>      re-run the recorded input of one event through the real code
 
 Spec -> code: <scenarios.json> holds the layouts printed by TLC from spec/Layout.tla (MC_Layout_gen.cfg): the whitelist
 alias, the barcode positions, the slice boundaries and the trimming rules of every strategy branch.  The generator places a
@@ -205,7 +206,30 @@ def observe(strategy, recs, FastqRecord, NonMultiplexable):
     return obs
 
 
+def replay(out, path):
+    from singlecellmultiomics.fastqProcessing.fastqIterator import FastqRecord
+    from singlecellmultiomics.modularDemultiplexer.baseDemultiplexMethods import NonMultiplexable
+    with open(path) as f:
+        ev = json.load(f)
+    bp, ip, dmx = build(1, inject=bool(ev.get('inj')))
+    strategies = {s.shortName: s for s in dmx.demultiplexingStrategies}
+    index = sorted(ip.barcodes[INDEX_ALIAS].keys())[0]
+    recs = []
+    for m in (1, 2)[:ev['nm']]:
+        hdr = '@NS500414:628:H7YVNBGXC:1:11101:%d:1000 %d:N:0:%s' % (1000 + ev['tid'] % 30000, m, index)
+        recs.append((hdr, ''.join(map(chr, ev['r%d' % m])), '+', ''.join(map(chr, ev['q%d' % m]))))
+    e = {k: ev[k] for k in ('ev', 'tid', 's', 'branch', 'inj', 'nm', 'r1', 'q1', 'r2', 'q2', 'gen')}
+    if ev['s'] in strategies:
+        e.update(observe(strategies[ev['s']], recs, FastqRecord, NonMultiplexable))
+    else:
+        e.update({'acc': False, 'raised': 'NotRegistered', 'out': [], 'shape': ''})
+    with open(out, 'w') as f:
+        f.write(json.dumps(e, separators=(',', ':')) + '\n')
+
+
 def main():
+    if sys.argv[2] == 'replay':
+        return replay(sys.argv[1], sys.argv[4])
     out, tier, seed, scn_path = sys.argv[1], sys.argv[2], int(sys.argv[3]), sys.argv[4]
     only = None
     per = None
